@@ -182,9 +182,47 @@ def pick_call(rng, grp):
         if g is not None:
             return g
     return rng.choice(CATALOGUE[grp])
-GROUP_WEIGHTS = [('athlon', 16), ('hungarian', 12), ('sportshall', 8), ('wma2023', 18), ('wma2015', 12),
+DEFAULT_GROUP_WEIGHTS = [('athlon', 16), ('hungarian', 12), ('sportshall', 8), ('wma2023', 18), ('wma2015', 12),
                  ('aag', 10), ('schema', 18), ('control', 6)]
+GROUP_WEIGHTS = list(DEFAULT_GROUP_WEIGHTS)
 VARIANTS = [('first', 40), ('warm', 35), ('cachefull', 25)]
+
+
+FILE_GROUPS = {
+    'athlib/athlon_score.py': ['athlon'], 'athlib/hungarian_score.py': ['hungarian'],
+    'athlib/sportshall_score.py': ['sportshall'], 'athlib/wma/agegrader.py': ['wma2023', 'wma2015', 'aag', 'athlon'],
+    'athlib/__init__.py': ['wma2023', 'wma2015', 'aag'], 'athlib/utils.py': ['schema', 'control'],
+    'athlib/tyrving_score.py': ['control'], 'athlib/qkids_score.py': ['control'], 'athlib/bulgarian_score.py': ['control'],
+    'athlib/implements.py': ['control', 'athlon'], 'athlib/uka/agegroups.py': ['control'], 'athlib/codes.py': [],
+}
+TREE_BIAS = {'modified': [], 'boosted': []}
+
+
+def apply_tree_bias():
+    """Change-aware budget (a heuristic on *where the runs go*, never part of an oracle): if the working
+    tree under test has uncommitted modifications in athlib/, the scenario groups that execute those
+    files get about half of the scenarios.  A function of the tree only, so a run is still a pure
+    function of (seed, tree); replay files are explicit anyway.  No git / clean tree: default weights."""
+    global GROUP_WEIGHTS
+    import subprocess
+    try:
+        p = subprocess.run(['git', '-C', common.REPO, 'status', '--porcelain', '--', 'athlib'],
+                           capture_output=True, text=True, timeout=30)
+        files = sorted(l[3:].strip() for l in p.stdout.splitlines() if l[:2].strip() and l[3:].strip().endswith('.py')) \
+            if p.returncode == 0 else []
+    except Exception:
+        files = []
+    boosted = sorted(set(g for f in files for g in FILE_GROUPS.get(f, [])))
+    TREE_BIAS['modified'] = files
+    TREE_BIAS['boosted'] = boosted
+    if boosted:
+        base = dict(DEFAULT_GROUP_WEIGHTS)
+        tot = sum(base.values())
+        for g in boosted:
+            base[g] += tot / float(len(boosted))
+        GROUP_WEIGHTS = sorted(base.items())
+    else:
+        GROUP_WEIGHTS = list(DEFAULT_GROUP_WEIGHTS)
 
 
 def weighted(rng, pairs):
@@ -735,6 +773,7 @@ def prepare_athlib():
     import athlib.utils  # noqa
     mods = [m for name, m in sorted(sys.modules.items()) if name == 'athlib' or name.startswith('athlib.')]
     n = thrsched.install_lock_seam(mods)
+    apply_tree_bias()
     # every run happens in a forked (grand)child: keep the garbage collector from touching the ~90 MB
     # of imported objects there (copy-on-write page copies were a quarter of the cost of a run)
     import gc
@@ -777,6 +816,10 @@ def main(tier_, replay=None):
     print('C16 thrsim tier=%s seed=%d scenarios=%d x %d schedules, repo=%s' %
           (tier_, master, cfg['scenarios'], cfg['k'], common.REPO), flush=True)
     nw = common.ncpu()
+    apply_tree_bias()
+    if TREE_BIAS['boosted']:
+        print('C16: uncommitted changes in %s -> scenario groups %s get about half of the budget' %
+              (TREE_BIAS['modified'], TREE_BIAS['boosted']), flush=True)
     parts = common.run_pool(worker(master, cfg['scenarios'], cfg['k'], opts), nw, wall_cap=cfg['wall'])
     cnt = Counter(); fnsw = Counter(); byg = Counter(); byv = Counter()
     sigs = set(); sigs_nt = set(); viols = []; samples = []; herr = []; exec_lines = set()
@@ -820,6 +863,7 @@ def main(tier_, replay=None):
         'distinct_states': len(sigs),
         'scenarios': cnt.get('scenarios', 0),
         'scenarios_by_group': dict(byg), 'scenarios_by_variant': dict(byv),
+        'change_aware_budget': dict(TREE_BIAS),
         'logical_steps': cnt.get('steps', 0),
         'simulated_time': 'not applicable - no clock in the subject; logical steps (athlib line events) reported instead',
         'runs_per_hour': int(runs / max(wall, 1e-9) * 3600),
